@@ -15,7 +15,6 @@ use std::cell::RefCell;
 use std::rc::Rc;
 use std::sync::Arc;
 
-type St = CodesStats;
 
 fn b8(v: u64) -> String {
     let b = v.to_be_bytes();
@@ -33,7 +32,7 @@ fn arr(vs: &[u64]) -> String {
     s
 }
 
-fn snap(tr: &mut Tr, id: i64, s: &St) {
+fn snap<const Z: usize, const G: usize, const E: usize, const R: usize, const P: usize>(tr: &mut Tr, id: i64, s: &CodesStats<Z, G, E, R, P>) {
     tr.emit(
         Ev::new("st_snap")
             .i("o", id)
@@ -69,7 +68,7 @@ fn code_fields(e: Ev, c: &Codes) -> Ev {
     e.s("c", f).i("k", k as i64).u64("cb", b)
 }
 
-fn best(tr: &mut Tr, id: i64, s: &St, values: Option<&[(u64, u64)]>) {
+fn best<const Z: usize, const G: usize, const E: usize, const R: usize, const P: usize>(tr: &mut Tr, id: i64, s: &CodesStats<Z, G, E, R, P>, values: Option<&[(u64, u64)]>) {
     let (c, cost) = s.best_code();
     let mut e = code_fields(Ev::new("st_best").i("o", id), &c).u64("cost", cost);
     if let Some(vals) = values {
@@ -115,19 +114,22 @@ fn rand_val(rng: &mut SmallRng, big: bool) -> u64 {
     }
 }
 
-pub fn run(tr: &mut Tr, seed: u64, rounds: usize, threads_rounds: usize) -> (u64, u64) {
-    let mut rng = SmallRng::seed_from_u64(seed ^ 0x5354);
+fn new_ev<const Z: usize, const G: usize, const E: usize, const R: usize, const P: usize>(tr: &mut Tr, id: i64) {
+    tr.emit(Ev::new("st_new").i("o", id).ints("sizes", &[Z as i64, G as i64, E as i64, R as i64, P as i64]));
+}
+
+fn rounds_for<const Z: usize, const G: usize, const E: usize, const R: usize, const P: usize>(tr: &mut Tr, rng: &mut SmallRng, rounds: usize) -> u64 {
     let mut tests = 0u64;
     for round in 0..rounds {
         tr.reset();
         let big = round % 3 == 2;
         let n = rng.random_range(1..if big { 12 } else { 40 });
         // multiset with multiplicities; large values only a few times so that totals stay below 2^64
-        let vals: Vec<(u64, u64)> = (0..n).map(|_| (rand_val(&mut rng, big), if rng.random_bool(0.3) { rng.random_range(1..if big { 4 } else { 1000 }) } else { 1 })).collect();
+        let vals: Vec<(u64, u64)> = (0..n).map(|_| (rand_val(rng, big), if rng.random_bool(0.3) { rng.random_range(1..if big { 4 } else { 1000 }) } else { 1 })).collect();
         // (a) one by one / with multiplicities into one object
         let whole_id = tr.new_id();
-        tr.emit(Ev::new("st_new").i("o", whole_id));
-        let mut whole = St::default();
+        new_ev::<Z, G, E, R, P>(tr, whole_id);
+        let mut whole = CodesStats::<Z, G, E, R, P>::default();
         for (v, c) in &vals {
             let ret = if *c == 1 { whole.update(*v) } else { whole.update_many(*v, *c) };
             tr.emit(Ev::new("st_update").i("o", whole_id).u64("v", *v).u64("count", *c).u64("ret", ret));
@@ -137,11 +139,11 @@ pub fn run(tr: &mut Tr, seed: u64, rounds: usize, threads_rounds: usize) -> (u64
         tests += 1;
         // (b) split into up to 3 parts, merge in different ways and orders
         let k = rng.random_range(1..=3usize);
-        let mut parts: Vec<(i64, St)> = (0..k)
+        let mut parts: Vec<(i64, CodesStats<Z, G, E, R, P>)> = (0..k)
             .map(|_| {
                 let id = tr.new_id();
-                tr.emit(Ev::new("st_new").i("o", id));
-                (id, St::default())
+                new_ev::<Z, G, E, R, P>(tr, id);
+                (id, CodesStats::<Z, G, E, R, P>::default())
             })
             .collect();
         for (v, c) in &vals {
@@ -159,8 +161,8 @@ pub fn run(tr: &mut Tr, seed: u64, rounds: usize, threads_rounds: usize) -> (u64
         }
         let how = rng.random_range(0..4);
         let merged_id = tr.new_id();
-        tr.emit(Ev::new("st_new").i("o", merged_id));
-        let mut merged = St::default();
+        new_ev::<Z, G, E, R, P>(tr, merged_id);
+        let mut merged = CodesStats::<Z, G, E, R, P>::default();
         match how {
             0 => {
                 for &i in &order {
@@ -192,11 +194,11 @@ pub fn run(tr: &mut Tr, seed: u64, rounds: usize, threads_rounds: usize) -> (u64
         tests += 1;
         // (c) through the dispatch wrapper on writes, then on reads
         let code = [Codes::Gamma, Codes::Delta, Codes::Zeta { k: 3 }, Codes::Omega, Codes::Pi { k: 2 }][rng.random_range(0..5)];
-        let ww = CodesStatsWrapper::<Codes>::new(code);
+        let ww = CodesStatsWrapper::<Codes, Z, G, E, R, P>::new(code);
         let log = Rc::new(RefCell::new(Vec::new()));
         let mut w: BufBitWriter<LE, Recording<NullSink<u64>>> = BufBitWriter::new(Recording { inner: NullSink::new(), log: log.clone() });
         let wid = tr.new_id();
-        tr.emit(Ev::new("st_new").i("o", wid));
+        new_ev::<Z, G, E, R, P>(tr, wid);
         for (v, _) in &vals {
             let _ = DynamicCodeWrite::write(&ww, &mut w, *v);
             tr.emit(Ev::new("st_update").i("o", wid).u64("v", *v).u64("count", 1).u64("ret", *v));
@@ -206,10 +208,10 @@ pub fn run(tr: &mut Tr, seed: u64, rounds: usize, threads_rounds: usize) -> (u64
         snap(tr, wid, &wstats);
         let bytes: Vec<u8> = log.borrow().clone();
         let words: Vec<u64> = crate::dynio::bytes_to_words(&bytes);
-        let rw = CodesStatsWrapper::<Codes>::new(code);
+        let rw = CodesStatsWrapper::<Codes, Z, G, E, R, P>::new(code);
         let mut r: BufBitReader<LE, MemWordReader<u64, Vec<u64>>> = BufBitReader::new(MemWordReader::new(words));
         let rid = tr.new_id();
-        tr.emit(Ev::new("st_new").i("o", rid));
+        new_ev::<Z, G, E, R, P>(tr, rid);
         for _ in &vals {
             if let Ok(v) = DynamicCodeRead::read(&rw, &mut r) {
                 tr.emit(Ev::new("st_update").i("o", rid).u64("v", v).u64("count", 1).u64("ret", v));
@@ -219,6 +221,16 @@ pub fn run(tr: &mut Tr, seed: u64, rounds: usize, threads_rounds: usize) -> (u64
         snap(tr, rid, &rstats);
         tests += 2;
     }
+    tests
+}
+
+pub fn run(tr: &mut Tr, seed: u64, rounds: usize, threads_rounds: usize) -> (u64, u64) {
+    let mut rng = SmallRng::seed_from_u64(seed ^ 0x5354);
+    let mut tests = 0u64;
+    // the default sizes and two other instantiations of the const parameters
+    tests += rounds_for::<10, 20, 10, 10, 10>(tr, &mut rng, rounds);
+    tests += rounds_for::<3, 5, 4, 8, 2>(tr, &mut rng, rounds / 2 + 1);
+    tests += rounds_for::<12, 1, 9, 2, 11>(tr, &mut rng, rounds / 2 + 1);
     // (d) threads sharing one wrapper
     for round in 0..threads_rounds {
         tr.reset();
